@@ -43,7 +43,7 @@ CHECKS = {
    text="For every block size the encoder is built in all four variants on the real code; all variants must succeed, agree, and satisfy every LDPC/HDPC/LT relation evaluated by the reference model. The thorough tier is the complete product (exhaustive over the finite set of block sizes).",
    note="Quick tier restricts the dense back-end to K'<=700 and the minimum-K partner to K'<=1100. Checked-profile runs stop at K'=1100 (cubic self-checks)."),
  "C16": dict(level="model_checking", design="5/C16", technique="bounded exhaustive exploration of admissible operation sequences on real dense + sparse matrices against a plain-array model (exact dedup on the objects' Hash/Eq), plus lock-step traces of the real solver over a forwarding BinaryMatrix implementation",
-   text="All admissible sequences (depth 3 quick / 4 thorough) of interface operations over boundary alphabets from seeds whose dense tails cross the 64-bit word boundary are applied to a real DenseBinaryMatrix, a real SparseBinaryMatrix and a 2-D array with undefined cells; all cells and all queries must agree in every state. The real solver is additionally run on a matrix that forwards every call to both implementations and the model, for encoding (K'<=101 quick / 500 thorough) and decoding traces, in release and debug-assertions builds.",
+   text="All admissible sequences (depth 3 quick / 4 thorough; depth 4 for the 6-row shapes in the quick tier) of interface operations over boundary alphabets from seeds whose dense tails cross the 64-bit word boundary are applied to a real DenseBinaryMatrix, a real SparseBinaryMatrix and a 2-D array with undefined cells; all cells and all queries must agree in every state. The real solver is additionally run on a matrix that forwards every call to both implementations and the model, for encoding (K'<=101 quick / 500 thorough) and decoding traces, in release and debug-assertions builds.",
    note="Admissibility = preconditions read off the code; matrices whose dense tail was dropped are only exercised with get/set/swap/add/resize."),
  "C17": dict(level="model_checking", design="5/C17", technique="loom DPOR exploration of all interleavings of real threads on the real cache code (shadow manifest over /repo/src), plus explicit-state exploration of request histories on the real global cache (policy-agnostic invariants, time-limited requests) and exhaustive confusable-size pairs",
    text="Eleven loom harnesses (same size, overlapping sizes, insert races eviction, hit races eviction, double eviction, sizes on the far side of the 250-symbol back-end threshold, large+small at capacity; 2-4 threads; unbounded DPOR where feasible, preemption bound 2-4 otherwise) run the real SourceBlockEncoder::new against the real cache compiled with loom primitives; every execution checks transparency and the cache invariants. Request histories (nodes = histories replayed on a cleared cache, merged on equal real contents; alphabet relative to the contents plus large sizes; seed prefixes around the capacity incl. full caches of large, re-requested plans) are explored to a depth bound; every request runs under a time limit (a call that never returns is a violation) and no eviction policy is assumed. Every ordered pair of confusable block sizes (rows sharing the systematic index, neighbouring rows, sizes padded to the same K') is requested on an empty cache in child processes.",
